@@ -426,6 +426,15 @@ class Engine:
         s = s.strip()
         if s in ("true", "false"):
             return s == "true"
+        if len(s) >= 3 and s[0] == "'" and s[-1] == "'" and getattr(self, "chars_as_ints", False):
+            body = s[1:-1]
+            um = re.match(r"^\\u\{([0-9a-fA-F]+)\}$", body)
+            if um:
+                return int(um.group(1), 16)
+            ch = bytes(body, "utf-8").decode("unicode_escape") if body.startswith("\\") else body
+            if len(ch) != 1:
+                raise Unsupported("char constant " + s)
+            return ord(ch)
         if len(s) >= 3 and s[0] == "'" and s[-1] == "'":
             body = s[1:-1]
             return ("char", bytes(body, "utf-8").decode("unicode_escape") if body.startswith("\\") else body)
